@@ -292,10 +292,10 @@ func newDssScen(c *kc.Ctx, h *shG, rng *kc.Rng, n, t int, source string) *dssSce
 
 // one event of a history, with the real object and its model token
 type dssEv struct {
-	sign    bool
-	ps      *dss.PartialSig
-	kind    string // honest | wrongV | forged | garbage-sig | other-session | out-of-range | reindexed | reindexed-resigned | sid-resigned
-	sender  int
+	sign   bool
+	ps     *dss.PartialSig
+	kind   string // honest | wrongV | forged | garbage-sig | other-session | out-of-range | reindexed | reindexed-resigned | sid-resigned
+	sender int
 }
 
 func (sc *dssScen) clonePS(ps *dss.PartialSig) *dss.PartialSig {
@@ -362,13 +362,34 @@ func dssErrClass(err error) string {
 	return "errAuth"
 }
 
+// dssFixOwn is "1" when the real PartialSig() does not store the node's own partial a second time
+// (fixes/C12-own-partial-counted-twice.patch landed), "0" for the code as it stands; probed at start.
+var dssFixOwn = "0"
+
+// dssProbe: node 0 receives its own partial (issued by another instance) and then signs, t = 2, n = 3.
+func dssProbe(c *kc.Ctx, h *shG) string {
+	sc := newDssScen(c, h, kc.NewRng(12), 3, 2, "poly")
+	if sc == nil {
+		return "0"
+	}
+	d := sc.node(0)
+	if d.ProcessPartialSig(sc.clonePS(sc.honest[0])) != nil {
+		return "0"
+	}
+	if _, err := d.PartialSig(); err != nil || d.EnoughPartialSig() {
+		return "0"
+	}
+	return "1"
+}
+
 type dssCase struct {
-	line    string
-	got     string // verdict string as the model prints it, verdict classes folded to ok/err
-	gotFull string // with the error classes of the real code
-	pred    string
-	key     string
-	replay  map[string]any
+	panicked bool // the real code panicked; the rest of the history was not executed and is not compared
+	line     string
+	got      string // verdict string as the model prints it, verdict classes folded to ok/err
+	gotFull  string // with the error classes of the real code
+	pred     string
+	key      string
+	replay   map[string]any
 }
 
 // play runs one history at combiner j on the real code.
@@ -378,6 +399,7 @@ func (sc *dssScen) play(j int, evs []dssEv, desc string) dssCase {
 	cs := dssCase{replay: map[string]any{"group": h.name, "n": sc.n, "t": sc.t, "keys": sc.source, "combiner": j, "history": desc}}
 	var toks, res, resFull []string
 	accepted := map[uint32]bool{}
+	signedYet, ownViaNetwork := false, false
 	fail := func(key, what string) {
 		if cs.pred == "" {
 			cs.pred, cs.key = what, key
@@ -394,14 +416,23 @@ func (sc *dssScen) play(j int, evs []dssEv, desc string) dssCase {
 			r := fmt.Sprintf("P:%x:%s", ps.Partial.I, kc.HexN(h.big(ps.Partial.V)))
 			res, resFull = append(res, r), append(resFull, r)
 			accepted[uint32(j)] = true
+			signedYet = true
 		} else {
 			ps := sc.clonePS(ev.ps)
 			auth := "0"
-			if int(ps.Partial.I) < sc.n && schnorr.Verify(sc.su, sc.parts[ps.Partial.I], ps.Hash(sc.su), ps.Signature) == nil {
+			if int(ps.Partial.I) < sc.n && kc.Recover(func() string {
+				return fmt.Sprint(schnorr.Verify(sc.su, sc.parts[ps.Partial.I], ps.Hash(sc.su), ps.Signature) == nil)
+			}) == "true" {
 				auth = "1"
 			}
 			toks = append(toks, fmt.Sprintf("r:%x:%s:%s:%s", ps.Partial.I, kc.HexN(h.big(ps.Partial.V)), kc.HexN(dssSidN(ps.SessionID)), auth))
-			err := d.ProcessPartialSig(ps)
+			var err error
+			if kc.Recover(func() string { err = d.ProcessPartialSig(ps); return "" }) == "panic" {
+				// not a rejection: the process dies on an untrusted message; the state of d is undefined from here on
+				fail("C12:ProcessPartialSig:panic:"+h.name, "ProcessPartialSig panics on a partial signature ("+ev.kind+") instead of rejecting it")
+				cs.panicked = true
+				break
+			}
 			cl := dssErrClass(err)
 			resFull = append(resFull, cl)
 			if err == nil {
@@ -409,20 +440,36 @@ func (sc *dssScen) play(j int, evs []dssEv, desc string) dssCase {
 			} else {
 				res = append(res, "err")
 			}
-			// predicate: honest first-time partials are accepted, everything else is rejected
-			wantOK := ev.kind == "honest" && !accepted[ps.Partial.I]
+			// predicate: a partial is valid iff it carries the index, value and session id of the honest partial
+			// of that index and authenticates under that participant's key (whatever way it was produced);
+			// valid partials of a new index are accepted, everything else is rejected
+			valid := auth == "1" && int(ps.Partial.I) < sc.n && ps.Partial.V.Equal(sc.honest[ps.Partial.I].Partial.V) &&
+				bytes.Equal(ps.SessionID, sc.honest[ps.Partial.I].SessionID)
+			wantOK := valid && !accepted[ps.Partial.I]
 			if wantOK && err != nil {
 				fail("C12:ProcessPartialSig:honest-rejected", "a valid partial signature was rejected: "+err.Error())
 			}
 			if !wantOK && err == nil {
-				fail("C12:ProcessPartialSig:"+ev.kind, "a partial signature that is "+map[bool]string{true: "a duplicate", false: ev.kind}[ev.kind == "honest"]+" was accepted")
+				what := ev.kind
+				if valid {
+					what = "a duplicate"
+				}
+				fail("C12:ProcessPartialSig:"+ev.kind, "a partial signature that is "+what+" was accepted")
+			}
+			if err == nil && int(ps.Partial.I) == j && !signedYet {
+				ownViaNetwork = true
 			}
 			if err == nil {
 				accepted[ps.Partial.I] = true
 			}
 		}
 		if d.EnoughPartialSig() != (len(accepted) >= sc.t) {
-			fail("C12:EnoughPartialSig", fmt.Sprintf("EnoughPartialSig = %v with %d accepted partials, t = %d", d.EnoughPartialSig(), len(accepted), sc.t))
+			key := "C12:EnoughPartialSig"
+			if ownViaNetwork && signedYet {
+				// the node's own partial arrived over the network (from another instance of the node) before PartialSig()
+				key = "C12:EnoughPartialSig:own-partial-counted-twice"
+			}
+			fail(key, fmt.Sprintf("EnoughPartialSig = %v with %d accepted partials, t = %d", d.EnoughPartialSig(), len(accepted), sc.t))
 		}
 	}
 	sig, err := d.Signature()
@@ -470,7 +517,7 @@ func (sc *dssScen) play(j int, evs []dssEv, desc string) dssCase {
 	if len(toks) > 0 {
 		ops = strings.Join(toks, ",")
 	}
-	cs.line = fmt.Sprintf("dss %s run %x %x %x %s %s %s %s %s %s %s", kc.HexN(h.q), j, sc.n, sc.t, kc.HexN(sc.alpha[j]), kc.HexN(sc.beta[j]),
+	cs.line = fmt.Sprintf("dss %s run %s %x %x %x %s %s %s %s %s %s %s", kc.HexN(h.q), dssFixOwn, j, sc.n, sc.t, kc.HexN(sc.alpha[j]), kc.HexN(sc.beta[j]),
 		kc.HexNList(sc.longC), kc.HexNList(sc.randC), kc.HexN(sc.hval), kc.HexN(sc.sid), ops)
 	r := "-"
 	rf := "-"
@@ -597,6 +644,8 @@ func runC12(c *kc.Ctx) {
 	groupsL := shGroups(c, c.Rng.Fork("c12-mock-stream"))
 	var cases []dssCase
 	scen := 0
+	dssFixOwn = dssProbe(c, groupsL[0])
+	c.Extra("own_partial_dedup_probe", dssFixOwn)
 	for _, h := range groupsL {
 		if !(h.mock != nil || h.name == "ed25519" || h.name == "p256" || c.Thorough()) {
 			continue
@@ -607,12 +656,12 @@ func runC12(c *kc.Ctx) {
 		sources := []string{"poly"}
 		switch {
 		case h.mock != nil:
-			ns, exhN, sampled = []int{3, 4, 5, 6, 7}, c.N(4, 5), c.N(40, 300)
+			ns, exhN, sampled = []int{3, 4, 5, 6, 7}, c.N(5, 6), c.N(150, 1000)
 		case h.name == "ed25519":
-			ns, exhN, sampled = []int{3, 4, 5, 6, 7}, c.N(4, 5), c.N(25, 200)
+			ns, exhN, sampled = []int{3, 4, 5, 6, 7}, c.N(4, 5), c.N(60, 400)
 			sources = []string{"poly", "rabin", "pedersen"}
 		default:
-			ns, exhN, sampled = []int{3, 5}, c.N(3, 4), c.N(10, 60)
+			ns, exhN, sampled = []int{3, 5}, c.N(3, 4), c.N(20, 100)
 			if c.Thorough() {
 				ns = []int{3, 4, 5, 7}
 			}
@@ -674,6 +723,10 @@ func runC12(c *kc.Ctx) {
 				rp[k] = v
 			}
 			c.Violation(cs.key, cs.pred, rp)
+		}
+		if cs.panicked {
+			c.CountKind("panicked-history")
+			continue
 		}
 		if full != cs.gotFull && folded == cs.got {
 			c.CountKind("class-mismatch")
